@@ -118,10 +118,34 @@ fn run() {
             u128::from(OPRFPaddingDp::new(1.0, 1e-3, 2).unwrap().get_shift()),
             u128::from(OPRFPaddingDp::new(1.0, 1e-3, 2).unwrap().get_shift()),
         ),
+        (
+            "cap1",
+            PaddingParameters {
+                aggregation_padding: AggregationPadding::NoAggPadding,
+                oprf_padding: OPRFPadding::Parameters { oprf_epsilon: 10.0, oprf_delta: 1e-4, matchkey_cardinality_cap: 1, oprf_padding_sensitivity: 2 },
+            },
+            u128::from(OPRFPaddingDp::new(10.0, 1e-4, 2).unwrap().get_shift()),
+            1,
+        ),
+        (
+            "cap5",
+            PaddingParameters {
+                aggregation_padding: AggregationPadding::NoAggPadding,
+                oprf_padding: OPRFPadding::Parameters { oprf_epsilon: 5.0, oprf_delta: 1e-4, matchkey_cardinality_cap: 5, oprf_padding_sensitivity: 2 },
+            },
+            u128::from(OPRFPaddingDp::new(5.0, 1e-4, 2).unwrap().get_shift()),
+            1,
+        ),
     ];
     let input: Vec<(u64, u8, u8)> = vec![(0x1111_2222_3333_4444, 5, 17), (0x1111_2222_3333_4444, 0, 200), (0xdead_beef, 7, 255)];
     for (pname, params, n_oprf, n_agg) in sets {
     let (n_oprf, n_agg) = (n_oprf, n_agg);
+    let cap = match params.oprf_padding {
+        OPRFPadding::Parameters { matchkey_cardinality_cap, .. } => matchkey_cardinality_cap as usize,
+        OPRFPadding::NoOPRFPadding => 0,
+    };
+    let mut groups_total: BTreeMap<usize, u128> = BTreeMap::new();
+    let mut runs_total = 0u64;
     for &seed in &seeds {
         for malicious in [false, true] {
             r.inc("evaluations");
@@ -153,15 +177,17 @@ fn run() {
             }
             let mut per_card: BTreeMap<usize, u128> = BTreeMap::new();
             for (mk, size) in &groups {
-                if *size > 3 && !want.iter().any(|w| w.0 == *mk) {
-                    bad = Some(format!("{size} dummy rows share the match key {mk:#x}: more than the cardinality cap 3"));
+                if *size > cap && !want.iter().any(|w| w.0 == *mk) {
+                    bad = Some(format!("{size} dummy rows share the match key {mk:#x}: more than the cardinality cap {cap}"));
                 }
-                *per_card.entry((*size).min(4)).or_default() += 1;
+                *per_card.entry(*size).or_default() += 1;
                 if want.iter().any(|w| w.0 == *mk) {
                     bad = Some(format!("a dummy row uses the match key {mk:#x} of a real report"));
                 }
             }
+            runs_total += 1;
             for (card, cnt) in &per_card {
+                *groups_total.entry(*card).or_default() += *cnt;
                 r.set("groups_per_cardinality", format!("{pname}:c{card}:{cnt}"));
                 if *cnt > 3 * 2 * n_oprf {
                     bad = Some(format!("{cnt} dummy groups of cardinality {card}: more than three draws from 0..={}", 2 * n_oprf));
@@ -209,6 +235,17 @@ fn run() {
                     r.violation(&key, &b, replay);
                 }
             }
+        }
+    }
+    // every cardinality up to the cap must occur among the dummy groups: each of the three passes of each
+    // run draws its number from 0..=2n, and all of them being 0 over all runs has negligible probability
+    for card in 1..=cap {
+        if runs_total > 0 && groups_total.get(&card).copied().unwrap_or(0) == 0 {
+            r.violation(
+                &format!("dp:dummy-records:cardinality-missing:{pname}"),
+                &format!("no dummy match key of cardinality {card} in {runs_total} padding runs (cardinality cap {cap})"),
+                json!({"part":"dummies","kind":"reports","params":pname,"cardinality":card}),
+            );
         }
     }
     }
